@@ -24,6 +24,8 @@ nothing is evaluated:
                         statement `X.update({"a": u, ..})` -> `X["a"] = u; ..`
   inline_generator_loops  `for T in h(a): B` with h a generator helper -> h's statements with every `yield E` replaced by `T = E; B`
 
+  split_chain_loops     `for T in chain(A, B): S` -> the loop over A followed by the loop over B;  `for c, x in zip(repeat(K), X)` -> the
+                        loop over X with c = K
 
 A transformation that cannot be applied safely (re-assigned names, break/continue, *args, generators, early returns) leaves the
 code as it is; the rules then see the original spelling."""
@@ -220,7 +222,7 @@ def _iterated(it, lits, attrs):
     return (tab, local) if view is None else None
 
 
-_CONST_CTORS = {"re.compile"}
+_CONST_CTORS = {"re.compile", "slice"}
 
 
 def _pure(e, lambdas: bool = False) -> bool:
@@ -276,6 +278,7 @@ def _unroll_one(loop: ast.For, seq):
     names = _target_names(tg)
     if names is None:
         return None
+    names = [x.id for x in ast.walk(tg) if isinstance(x, ast.Name)]
     # the loop targets must not be RE-BOUND in the body; mutating the object a target names in place (`c.clear()`, `c[k] = v`)
     # is the same operation on the element expression that replaces the target
     if set(names) & _rebound(loop.body):
@@ -332,25 +335,29 @@ def _attr_table(node, attrs):
     return None
 
 
-def _unroll_block(stmts, lits, once=frozenset(), attrs=None):
+def _unroll_block(stmts, lits, once=frozenset(), attrs=None, static: bool = False):
     """lits: name -> literal sequence node still valid at this point;  once: the locals read exactly once in the function (only
-    those may stand for a one-shot zip / enumerate iterator);  attrs: (receiver, attribute) -> class-level literal table"""
+    those may stand for a one-shot zip / enumerate iterator);  attrs: (receiver, attribute) -> class-level literal table.
+    static=True (fold_static): the sequence a loop walks / a local is bound to may also be a stdlib expression over literals (zip,
+    enumerate, accumulate, comprehension ... see _static_seq)"""
     out = []
     lits = dict(lits)
     for st in stmts:
         if isinstance(st, ast.For):
             seq, local = _iterated(st.iter, lits, attrs) or (None, None)
+            if seq is None and static:
+                seq = _static_seq(st.iter, lits)
             if seq is not None:
                 body_st = _stored(st.body)
                 free = set().union(*[_loaded(e) for e in seq.elts]) if seq.elts else set()
-                if not (free & body_st) and not (local is not None and local in body_st):
+                if not (free & body_st) and not (local is not None and local in body_st) and not (static and _loaded(st.iter) & body_st):
                     after = stmts[stmts.index(st) + 1:]
                     tnames = {n.id for n in ast.walk(st.target) if isinstance(n, ast.Name)}
                     un = _scan_chain(st, seq) if not (tnames & set().union(*[_loaded(a) for a in after], set())) else None
                     if un is None:
                         un = _unroll_one(st, seq)
                     if un is not None:
-                        un = _unroll_block(un, lits, once, attrs)
+                        un = _unroll_block(un, lits, once, attrs, static)
                         for u in un:
                             ast.fix_missing_locations(u)
                         out.extend(un)
@@ -361,10 +368,10 @@ def _unroll_block(stmts, lits, once=frozenset(), attrs=None):
         for fld in ("body", "orelse", "finalbody"):
             b = getattr(st, fld, None)
             if isinstance(b, list) and b and isinstance(b[0], ast.stmt) and not isinstance(st, (ast.FunctionDef, ast.ClassDef, ast.AsyncFunctionDef)):
-                setattr(st, fld, _unroll_block(b, surviving, once, attrs))
+                setattr(st, fld, _unroll_block(b, surviving, once, attrs, static))
         if isinstance(st, ast.Try):
             for h in st.handlers:
-                h.body = _unroll_block(h.body, surviving, once, attrs)
+                h.body = _unroll_block(h.body, surviving, once, attrs, static)
         # update the table
         for k in list(lits):
             if k in inner_st or (set().union(*[_loaded(e) for e in lits[k].elts]) & inner_st):
@@ -373,10 +380,15 @@ def _unroll_block(stmts, lits, once=frozenset(), attrs=None):
             # a local bound to a literal table, or to a class-level / local table under another name (`rows = self._ROWS`); a
             # zip / enumerate of literals is a one-shot iterator: the local stands for its rows only where it is read once
             seq = _literal_table(st.value) or _attr_table(st.value, attrs) or (lits.get(st.value.id) if isinstance(st.value, ast.Name) else None)
-            oneshot = isinstance(st.value, ast.Call)
-            if seq is not None and all(_pure(e, lambdas=True) for e in seq.elts) and st.targets[0].id not in set().union(*[_loaded(e) for e in seq.elts]) \
+            oneshot = isinstance(st.value, ast.Call) and not static
+            if seq is None and static:
+                seq = _static_seq(st.value, lits)
+            if seq is not None and all(_pure(e, lambdas=True) for e in seq.elts) and st.targets[0].id not in set().union(*[_loaded(e) for e in seq.elts], set()) \
                     and (not oneshot or st.targets[0].id in once):
                 lits[st.targets[0].id] = seq
+                if static and isinstance(st.value, ast.ListComp):
+                    # a list comprehension over a literal table IS the list of its substituted elements
+                    st.value = ast.fix_missing_locations(ast.copy_location(ast.List(elts=[copy.deepcopy(e) for e in seq.elts], ctx=ast.Load()), st.value))
         out.append(st)
     return out
 
@@ -2244,10 +2256,106 @@ def coalesce_copies(func):
     return func
 
 
+# --------------------------------------------------------------------------------------------- loops over concatenated iterables
+
+def _chain_parts(e):
+    """[A, B, ..] when e is itertools.chain(A, B, ..), possibly wrapped in list() / tuple() / iter(); else None"""
+    while isinstance(e, ast.Call) and isinstance(e.func, ast.Name) and e.func.id in ("list", "tuple", "iter") and len(e.args) == 1 and not e.keywords:
+        e = e.args[0]
+    if isinstance(e, ast.Call) and ast.unparse(e.func) in ("chain", "itertools.chain") and len(e.args) >= 2 and not e.keywords \
+            and not any(isinstance(a, ast.Starred) for a in e.args):
+        return list(e.args)
+    return None
+
+
+def _repeat_const(e):
+    return e.args[0] if isinstance(e, ast.Call) and ast.unparse(e.func) in ("repeat", "itertools.repeat") and len(e.args) == 1 and not e.keywords \
+        and isinstance(e.args[0], ast.Constant) else None
+
+
+def split_chain_loops(func):
+    """Loop fission over concatenated iterables:
+        for T in chain(A, B): S                 ->   for T in A: S;  for T in B: S         (S has no break; no else clause)
+        for c, x in zip(repeat(K), X): S        ->   for x in X: S[c := K]                 (K a constant, c not re-bound in S)
+    A local bound once to [list(]chain(..)[)] and read only as the iterable of for-loops (once, unless it is a list / tuple) stands for
+    that expression.  `for sign, i in chain(zip(repeat(" - "), R), zip(repeat(" + "), P))` is then the loss loop followed by the gain loop."""
+    if not any(isinstance(n, ast.Call) and ast.unparse(n.func) in ("chain", "itertools.chain", "repeat", "itertools.repeat") for n in ast.walk(func)):
+        return func
+    stores, loads = {}, {}
+    for n in ast.walk(func):
+        if isinstance(n, ast.Name):
+            d = stores if isinstance(n.ctx, (ast.Store, ast.Del)) else loads
+            d[n.id] = d.get(n.id, 0) + 1
+    bound = {}
+
+    def bindings(stmts):
+        """chain-valued locals of this block whose every read is the iterable of a for-loop later in the SAME block, with nothing in
+        between re-binding the local or a name its value mentions"""
+        for i, n in enumerate(stmts):
+            if isinstance(n, ast.Assign) and len(n.targets) == 1 and isinstance(n.targets[0], ast.Name) and stores.get(n.targets[0].id) == 1 and _chain_parts(n.value) is not None:
+                name = n.targets[0].id
+                uses = [j for j in range(i + 1, len(stmts)) if isinstance(stmts[j], ast.For) and isinstance(stmts[j].iter, ast.Name) and stmts[j].iter.id == name]
+                reusable = isinstance(n.value, ast.Call) and isinstance(n.value.func, ast.Name) and n.value.func.id in ("list", "tuple")
+                free = _loaded(n.value) | {name}
+                ok_parts = all(_pure(a) or _repeat_const(a) is not None or (isinstance(a, ast.Call) and isinstance(a.func, ast.Name) and a.func.id == "zip" and not a.keywords
+                               and all(_pure(z) or _repeat_const(z) is not None for z in a.args)) for a in _chain_parts(n.value))
+                if uses and len(uses) == loads.get(name, 0) and (reusable or len(uses) == 1) and ok_parts and not (free & _stored(stmts[i + 1:uses[-1] + 1])):
+                    bound[name] = n
+
+    def one(loop):
+        """the loops `loop` stands for"""
+        it = bound[loop.iter.id].value if isinstance(loop.iter, ast.Name) and loop.iter.id in bound else loop.iter
+        parts = _chain_parts(it)
+        if parts is not None and not loop.orelse and not any(isinstance(x, ast.Break) for st in loop.body for x in ast.walk(st)):
+            out = []
+            for p_ in parts:
+                new = ast.For(target=copy.deepcopy(loop.target), iter=copy.deepcopy(p_), body=[copy.deepcopy(st) for st in loop.body], orelse=[], type_comment=None)
+                out.extend(one(ast.copy_location(new, loop)))
+            return out
+        if isinstance(it, ast.Call) and isinstance(it.func, ast.Name) and it.func.id == "zip" and not it.keywords and isinstance(loop.target, (ast.Tuple, ast.List)) \
+                and len(loop.target.elts) == len(it.args) and not any(isinstance(a, ast.Starred) for a in it.args):
+            consts = {i: _repeat_const(a) for i, a in enumerate(it.args)}
+            fixed = {i: k for i, k in consts.items() if k is not None and isinstance(loop.target.elts[i], ast.Name)}
+            names = {loop.target.elts[i].id for i in fixed}
+            if fixed and len(fixed) < len(it.args) and not (names & _rebound(loop.body)):
+                keep = [i for i in range(len(it.args)) if i not in fixed]
+                m = {loop.target.elts[i].id: k for i, k in fixed.items()}
+                loop.body = [_Subst(dict(m)).visit(st) for st in loop.body]
+                if len(keep) == 1:
+                    loop.target, loop.iter = loop.target.elts[keep[0]], it.args[keep[0]]
+                else:
+                    loop.target = ast.Tuple(elts=[loop.target.elts[i] for i in keep], ctx=ast.Store())
+                    loop.iter = ast.Call(func=it.func, args=[it.args[i] for i in keep], keywords=[])
+                ast.fix_missing_locations(loop)
+        return [loop]
+
+    def block(stmts):
+        out = []
+        bindings(stmts)
+        for st in stmts:
+            if isinstance(st, (ast.FunctionDef, ast.ClassDef, ast.AsyncFunctionDef)):
+                out.append(st)
+                continue
+            for fld in ("body", "orelse", "finalbody"):
+                b = getattr(st, fld, None)
+                if isinstance(b, list) and b and isinstance(b[0], ast.stmt):
+                    setattr(st, fld, block(b))
+            if isinstance(st, ast.Try):
+                for h in st.handlers:
+                    h.body = block(h.body)
+            if any(st is n for n in bound.values()):
+                continue                       # the binding is replaced by its uses
+            out.extend(one(st) if isinstance(st, ast.For) else [st])
+        return out
+    func.body = block(func.body) or [ast.Pass()]
+    return ast.fix_missing_locations(func)
+
+
 def normalize_function(func, tables: dict | None = None, ctables: dict | None = None, cname: str | None = None):
     """the local normalisations (no knowledge of other functions needed); `tables`: module-level literal tables (module_tables);
     `ctables`: class-level literal tables (class_tables) of the class `cname` the function is a method of"""
     try:
+        split_chain_loops(func)
         inline_method_aliases(func)
         specialise_dispatch(func)
         inline_local_defs(func)
@@ -2261,6 +2369,485 @@ def normalize_function(func, tables: dict | None = None, ctables: dict | None = 
             func.body = [_CallLambda().visit(st) for st in func.body]
             inline_local_defs(func)
             ast.fix_missing_locations(func)
+    except RecursionError:
+        pass
+    return func
+
+
+# ----------------------------------------------------------------------------------------------- static folding (opt-in pass)
+#
+# fold_static(func) is NOT part of normalize_function: a rule asks for it (pymodel.Package.folded) when it decides a function by
+# the VALUES its statements compute rather than by their arrangement.  It is partial evaluation of the literal part of a function:
+#   * sequences: zip / enumerate / reversed / list / tuple / range / itertools.accumulate / slices / `+` / comprehensions and
+#     generator expressions over literal tuples and lists (and locals bound to them) are the literal they evaluate to, so that a
+#     loop over them is unrolled like a loop over a literal written in place (nested tuple targets included);
+#   * scalars: integer arithmetic on constants, <literal>[<constant>], <dict literal>[<constant>] / .get(<constant>), len / sum of
+#     a literal, `<constant> == <constant>`, `<constant> in <literal of constants>`, and the `if` / conditional expressions whose
+#     test became a constant;
+#   * table dispatch: `if key in <literal dict / tuple of constants>: ... TABLE[key] ...` is the if/elif chain over the keys;
+#   * functools.reduce(f, <literal>, init) is f(f(init, e1), e2)..; a lambda called on the spot is its body;
+#   * getattr(x, "name") / setattr(x, "name", v) with a literal identifier are `x.name` / `x.name = v`.
+# Nothing is executed: only Python's own semantics of these pure builtins on literals is used.
+
+_SEQ_MAX = 64
+
+
+def _num(e) -> bool:
+    return isinstance(e, ast.Constant) and isinstance(e.value, (int, float)) and not isinstance(e.value, bool)
+
+
+def _int(e) -> bool:
+    return isinstance(e, ast.Constant) and isinstance(e.value, int) and not isinstance(e.value, bool)
+
+
+def _plain_seq(e):
+    return isinstance(e, (ast.Tuple, ast.List)) and len(e.elts) <= _SEQ_MAX and not any(isinstance(x, ast.Starred) for x in e.elts)
+
+
+def _const_keys(e):
+    """the constants a literal container holds (dict: its keys), or None when an element is not a constant"""
+    if isinstance(e, ast.Dict):
+        ks = e.keys
+    elif isinstance(e, (ast.Tuple, ast.List, ast.Set)):
+        ks = e.elts
+    else:
+        return None
+    if any(not isinstance(k, ast.Constant) for k in ks):
+        return None
+    return [k.value for k in ks]
+
+
+def _same_const(a, b) -> bool:
+    return type(a) is type(b) and a == b
+
+
+def _mk_tuple(elts, like=None):
+    t = ast.Tuple(elts=list(elts), ctx=ast.Load())
+    if like is not None and hasattr(like, "lineno"):
+        ast.copy_location(t, like)
+    return ast.fix_missing_locations(t)
+
+
+def _slice_bounds(s):
+    """(lo, hi, step) of a slice with constant / absent bounds, or None"""
+    if not isinstance(s, ast.Slice):
+        return None
+    out = []
+    for b in (s.lower, s.upper, s.step):
+        if b is None or (isinstance(b, ast.Constant) and b.value is None):
+            out.append(None)
+        elif _int(b):
+            out.append(b.value)
+        elif isinstance(b, ast.UnaryOp) and isinstance(b.op, ast.USub) and _int(b.operand):
+            out.append(-b.operand.value)
+        else:
+            return None
+    return tuple(out)
+
+
+def _static_seq(e, lits, depth: int = 0):
+    """the literal tuple (of element EXPRESSIONS) that the sequence expression `e` evaluates to, or None.  `lits`: locals known to be
+    bound to such literals.  One-shot iterators (zip, accumulate, generators) bound to a local are treated as the sequence they
+    yield: code that walks such a local twice is not what this pass is for (the second walk would be empty)."""
+    if depth > 8:
+        return None
+    rec = lambda x: _static_seq(x, lits, depth + 1)
+    if _plain_seq(e):
+        return e
+    if isinstance(e, ast.Name):
+        return lits.get(e.id)
+    if isinstance(e, ast.Dict) and _const_keys(e) is not None:
+        return _mk_tuple([copy.deepcopy(k) for k in e.keys], e)
+    if isinstance(e, ast.Subscript):
+        seq, b = rec(e.value), _slice_bounds(e.slice)
+        if seq is not None and b is not None and b[2] in (None, 1, -1):
+            return _mk_tuple(seq.elts[slice(*b)], e)
+        return None
+    if isinstance(e, ast.BinOp) and isinstance(e.op, ast.Add):
+        a, b = rec(e.left), rec(e.right)
+        if a is not None and b is not None and type(a) is type(b) and len(a.elts) + len(b.elts) <= _SEQ_MAX:
+            return _mk_tuple(list(a.elts) + list(b.elts), e)
+        return None
+    if isinstance(e, (ast.ListComp, ast.GeneratorExp)) and len(e.generators) == 1 and not e.generators[0].is_async:
+        g = e.generators[0]
+        seq = rec(g.iter)
+        if seq is None:
+            return None
+        out = []
+        for el in seq.elts:
+            m = _destructure(g.target, el)
+            if m is None or not all(_pure(v, lambdas=True) for v in m.values()):
+                return None
+            keep = True
+            for c in g.ifs:
+                t = _fold_expr(_Subst(dict(m)).visit(copy.deepcopy(c)))
+                if not isinstance(t, ast.Constant):
+                    return None
+                if not t.value:
+                    keep = False
+                    break
+            if keep:
+                out.append(_fold_expr(_Subst(dict(m)).visit(copy.deepcopy(e.elt))))
+        return _mk_tuple(out, e)
+    if not isinstance(e, ast.Call) or any(isinstance(a, ast.Starred) for a in e.args) or any(k.arg is None for k in e.keywords):
+        return None
+    f = e.func
+    kws = {k.arg: k.value for k in e.keywords}
+    if isinstance(f, ast.Attribute) and f.attr in ("items", "keys", "values") and isinstance(f.value, ast.Dict) and not e.args and not kws \
+            and _const_keys(f.value) is not None and len(f.value.keys) <= _SEQ_MAX:
+        d = f.value
+        if f.attr == "keys":
+            return _mk_tuple([copy.deepcopy(k) for k in d.keys], e)
+        if f.attr == "values":
+            return _mk_tuple([copy.deepcopy(v) for v in d.values], e)
+        return _mk_tuple([_mk_tuple([copy.deepcopy(k), copy.deepcopy(v)], e) for k, v in zip(d.keys, d.values)], e)
+    name = ast.unparse(f)
+    if name.startswith("itertools."):
+        name = name[len("itertools."):]
+    if name in lits:
+        return None                     # the builtin's name is a local here
+    if name in ("list", "tuple", "iter") and len(e.args) == 1 and not kws:
+        return rec(e.args[0])
+    if name == "reversed" and len(e.args) == 1 and not kws:
+        seq = rec(e.args[0])
+        return _mk_tuple(reversed(seq.elts), e) if seq is not None else None
+    if name == "zip" and e.args and (not kws or (set(kws) == {"strict"} and isinstance(kws["strict"], ast.Constant))):
+        seqs = [rec(a) for a in e.args]
+        if any(s is None for s in seqs):
+            return None
+        n = min(len(s.elts) for s in seqs)
+        return _mk_tuple([_mk_tuple([copy.deepcopy(s.elts[i]) for s in seqs], e) for i in range(n)], e)
+    if name == "enumerate" and 1 <= len(e.args) <= 2 and set(kws) <= {"start"}:
+        seq = rec(e.args[0])
+        start = e.args[1] if len(e.args) == 2 else kws.get("start", ast.Constant(value=0))
+        if seq is None or not _int(start):
+            return None
+        return _mk_tuple([_mk_tuple([ast.Constant(value=start.value + i), copy.deepcopy(x)], e) for i, x in enumerate(seq.elts)], e)
+    if name == "accumulate" and len(e.args) == 1 and set(kws) <= {"initial"}:
+        seq = rec(e.args[0])
+        init = kws.get("initial")
+        if seq is None or not all(_num(x) for x in seq.elts) or (init is not None and not (_num(init) or (isinstance(init, ast.Constant) and init.value is None))):
+            return None
+        vals = [x.value for x in seq.elts]
+        if init is not None and init.value is not None:
+            vals = [init.value] + vals
+        run, tot = [], None
+        for v in vals:
+            tot = v if tot is None else tot + v
+            run.append(tot)
+        return _mk_tuple([ast.Constant(value=v) for v in run], e)
+    if name == "range" and 1 <= len(e.args) <= 3 and not kws and all(_int(a) for a in e.args):
+        r = range(*[a.value for a in e.args])
+        return _mk_tuple([ast.Constant(value=v) for v in r], e) if len(r) <= _SEQ_MAX else None
+    return None
+
+
+class _Fold(ast.NodeTransformer):
+    """scalar folding of the literal part of an expression (see fold_static)"""
+
+    def visit_BinOp(self, n):
+        self.generic_visit(n)
+        l, r = n.left, n.right
+        if _int(l) and _int(r) and isinstance(n.op, (ast.Add, ast.Sub, ast.Mult)):
+            v = l.value + r.value if isinstance(n.op, ast.Add) else l.value - r.value if isinstance(n.op, ast.Sub) else l.value * r.value
+            return ast.copy_location(ast.Constant(value=v), n)
+        if _int(l) and _int(r) and isinstance(n.op, ast.FloorDiv) and r.value > 0 and l.value >= 0:
+            return ast.copy_location(ast.Constant(value=l.value // r.value), n)
+        return n
+
+    def visit_UnaryOp(self, n):
+        self.generic_visit(n)
+        if isinstance(n.op, ast.Not) and isinstance(n.operand, ast.Constant):
+            return ast.copy_location(ast.Constant(value=not n.operand.value), n)
+        return n
+
+    def visit_Subscript(self, n):
+        self.generic_visit(n)
+        if not isinstance(n.ctx, ast.Load):
+            return n
+        v, s = n.value, n.slice
+        # x[slice(a, b)] is x[a:b]
+        if isinstance(s, ast.Call) and isinstance(s.func, ast.Name) and s.func.id == "slice" and 1 <= len(s.args) <= 3 and not s.keywords \
+                and all(isinstance(a, ast.Constant) and (a.value is None or _int(a)) for a in s.args):
+            a_ = [None if a.value is None else a for a in s.args]
+            lo, hi, st = (None, a_[0], None) if len(a_) == 1 else (a_[0], a_[1], a_[2] if len(a_) == 3 else None)
+            n.slice = s = ast.copy_location(ast.Slice(lower=lo, upper=hi, step=st), s)
+        if isinstance(v, ast.Dict) and isinstance(s, ast.Constant) and _const_keys(v) is not None and all(_pure(x, lambdas=True) for x in v.values):
+            hit = [val for k, val in zip(v.keys, v.values) if _same_const(k.value, s.value)]
+            if hit:
+                return ast.copy_location(copy.deepcopy(hit[-1]), n)
+        if _plain_seq(v) and all(_pure(x, lambdas=True) for x in v.elts):
+            if _int(s) and -len(v.elts) <= s.value < len(v.elts):
+                return ast.copy_location(copy.deepcopy(v.elts[s.value]), n)
+            b = _slice_bounds(s)
+            if b is not None and b[2] in (None, 1):
+                new = type(v)(elts=[copy.deepcopy(x) for x in v.elts[slice(*b)]], ctx=ast.Load())
+                return ast.copy_location(new, n)
+        return n
+
+    def visit_Compare(self, n):
+        self.generic_visit(n)
+        if len(n.ops) != 1:
+            return n
+        l, r, op = n.left, n.comparators[0], n.ops[0]
+        if isinstance(l, ast.Constant) and isinstance(r, ast.Constant) and isinstance(op, (ast.Eq, ast.NotEq)) \
+                and (type(l.value) is type(r.value) or isinstance(l.value, str) != isinstance(r.value, str)):
+            eq = _same_const(l.value, r.value)
+            return ast.copy_location(ast.Constant(value=eq if isinstance(op, ast.Eq) else not eq), n)
+        if isinstance(l, ast.Constant) and isinstance(op, (ast.In, ast.NotIn)):
+            ks = _const_keys(r)
+            if ks is not None and (isinstance(l.value, str) or l.value is None or all(type(k) is type(l.value) for k in ks)):
+                inside = any(_same_const(k, l.value) for k in ks)
+                return ast.copy_location(ast.Constant(value=inside if isinstance(op, ast.In) else not inside), n)
+        return n
+
+    def visit_BoolOp(self, n):
+        self.generic_visit(n)
+        is_and = isinstance(n.op, ast.And)
+        vals = []
+        for i, v in enumerate(n.values):
+            if isinstance(v, ast.Constant) and bool(v.value) == is_and and i < len(n.values) - 1:
+                continue            # `True and x` is x;  `False or x` is x
+            vals.append(v)
+            if isinstance(v, ast.Constant) and bool(v.value) != is_and:
+                break               # `x and False and y` stops at False
+        # a leading decisive constant decides the whole expression
+        if isinstance(vals[0], ast.Constant) and bool(vals[0].value) != is_and:
+            return ast.copy_location(vals[0], n)
+        if len(vals) == 1:
+            return vals[0]
+        n.values = vals
+        return n
+
+    def visit_IfExp(self, n):
+        self.generic_visit(n)
+        if isinstance(n.test, ast.Constant):
+            return n.body if n.test.value else n.orelse
+        return n
+
+    def visit_Call(self, n):
+        self.generic_visit(n)
+        f = n.func
+        if any(isinstance(a, ast.Starred) for a in n.args) or any(k.arg is None for k in n.keywords):
+            return n
+        name = ast.unparse(f) if isinstance(f, (ast.Name, ast.Attribute)) else ""
+        if name == "len" and len(n.args) == 1 and not n.keywords and (_plain_seq(n.args[0]) or (isinstance(n.args[0], ast.Dict) and None not in n.args[0].keys)):
+            a = n.args[0]
+            return ast.copy_location(ast.Constant(value=len(a.keys if isinstance(a, ast.Dict) else a.elts)), n)
+        if name == "len" and len(n.args) == 1 and not n.keywords and isinstance(n.args[0], ast.Constant) and isinstance(n.args[0].value, (str, bytes)):
+            return ast.copy_location(ast.Constant(value=len(n.args[0].value)), n)
+        if name == "sum" and len(n.args) == 1 and not n.keywords and _plain_seq(n.args[0]) and all(_int(x) for x in n.args[0].elts):
+            return ast.copy_location(ast.Constant(value=sum(x.value for x in n.args[0].elts)), n)
+        if name in ("reduce", "functools.reduce") and len(n.args) in (2, 3) and not n.keywords and _plain_seq(n.args[1]) \
+                and all(_pure(x) for x in n.args[1].elts) and _pure(n.args[0], lambdas=True):
+            elts = list(n.args[1].elts)
+            acc = n.args[2] if len(n.args) == 3 else (elts.pop(0) if elts else None)
+            if acc is not None:
+                for el in elts:
+                    acc = self.visit_Call(ast.copy_location(ast.Call(func=copy.deepcopy(n.args[0]), args=[acc, copy.deepcopy(el)], keywords=[]), n))
+                return ast.fix_missing_locations(acc)
+        if isinstance(f, ast.Lambda) and not n.keywords:
+            a = f.args
+            params = [p.arg for p in a.args]
+            if not (a.posonlyargs or a.kwonlyargs or a.vararg or a.kwarg or a.defaults) and len(params) == len(n.args) \
+                    and not any(isinstance(x, (ast.Lambda, ast.ListComp, ast.SetComp, ast.DictComp, ast.GeneratorExp)) for x in ast.walk(f.body)):
+                uses = {p: sum(1 for x in ast.walk(f.body) if isinstance(x, ast.Name) and x.id == p) for p in params}
+                if all(_pure(arg, lambdas=True) or uses[p] == 1 for p, arg in zip(params, n.args)):
+                    return ast.copy_location(_Subst(dict(zip(params, n.args))).visit(copy.deepcopy(f.body)), n)
+        if name == "getattr" and len(n.args) == 2 and not n.keywords and isinstance(n.args[1], ast.Constant) and isinstance(n.args[1].value, str) \
+                and n.args[1].value.isidentifier():
+            return ast.copy_location(ast.Attribute(value=n.args[0], attr=n.args[1].value, ctx=ast.Load()), n)
+        if isinstance(f, ast.Attribute) and f.attr == "get" and isinstance(f.value, ast.Dict) and 1 <= len(n.args) <= 2 and not n.keywords \
+                and isinstance(n.args[0], ast.Constant) and _const_keys(f.value) is not None and all(_pure(x, lambdas=True) for x in f.value.values):
+            hit = [val for k, val in zip(f.value.keys, f.value.values) if _same_const(k.value, n.args[0].value)]
+            if hit:
+                return ast.copy_location(copy.deepcopy(hit[-1]), n)
+            if len(n.args) == 1 or _pure(n.args[1], lambdas=True):
+                return ast.copy_location(n.args[1] if len(n.args) == 2 else ast.Constant(value=None), n)
+        return n
+
+    def visit_Expr(self, n):
+        self.generic_visit(n)
+        c = n.value
+        if isinstance(c, ast.Call) and isinstance(c.func, ast.Name) and c.func.id == "setattr" and len(c.args) == 3 and not c.keywords \
+                and isinstance(c.args[1], ast.Constant) and isinstance(c.args[1].value, str) and c.args[1].value.isidentifier():
+            new = ast.Assign(targets=[ast.Attribute(value=c.args[0], attr=c.args[1].value, ctx=ast.Store())], value=c.args[2])
+            return ast.fix_missing_locations(ast.copy_location(new, n))
+        return n
+
+
+def _fold_expr(e):
+    return ast.fix_missing_locations(_Fold().visit(e))
+
+
+def _prune_const_ifs(stmts):
+    """`if <constant>:` is the arm it selects"""
+    out = []
+    for st in stmts:
+        if not isinstance(st, (ast.FunctionDef, ast.ClassDef, ast.AsyncFunctionDef)):
+            for fld in ("body", "orelse", "finalbody"):
+                b = getattr(st, fld, None)
+                if isinstance(b, list) and b and isinstance(b[0], ast.stmt):
+                    nb = _prune_const_ifs(b)
+                    setattr(st, fld, nb if nb or fld != "body" else [ast.copy_location(ast.Pass(), st)])
+            if isinstance(st, ast.Try):
+                for h in st.handlers:
+                    h.body = _prune_const_ifs(h.body) or [ast.copy_location(ast.Pass(), st)]
+        if isinstance(st, ast.If) and isinstance(st.test, ast.Constant):
+            out.extend(st.body if st.test.value else st.orelse)
+            continue
+        out.append(st)
+    return out
+
+
+class _TableDispatch(ast.NodeTransformer):
+    """`if key in <literal dict / tuple / list / set of constants> [and c]: B` whose body (or c) looks something up BY key --
+    `<dict literal>[key]`, getattr / setattr with a name computed from key -- is the chain `if key == k1 [and c]: B[key := k1]
+    elif key == k2 ..: B[key := k2] .. else: <the original else>`: inside each arm key IS that constant.  key is a plain name that
+    the body does not re-bind."""
+
+    @staticmethod
+    def _keyed(nodes, name) -> bool:
+        for st in nodes:
+            for x in ast.walk(st):
+                if isinstance(x, ast.Subscript) and isinstance(x.value, ast.Dict) and isinstance(x.slice, ast.Name) and x.slice.id == name:
+                    return True
+                if isinstance(x, ast.Call) and isinstance(x.func, ast.Name) and x.func.id in ("getattr", "setattr") and len(x.args) >= 2 \
+                        and any(isinstance(y, ast.Name) and y.id == name for y in ast.walk(x.args[1])):
+                    return True
+        return False
+
+    def visit_If(self, n):
+        self.generic_visit(n)
+        first, rest = n.test, []
+        if isinstance(first, ast.BoolOp) and isinstance(first.op, ast.And):
+            first, rest = first.values[0], first.values[1:]
+        if not (isinstance(first, ast.Compare) and len(first.ops) == 1 and isinstance(first.ops[0], ast.In) and isinstance(first.left, ast.Name)):
+            return n
+        x = first.left.id
+        keys = _const_keys(first.comparators[0])
+        if not keys or len(keys) > 12 or len(set(map(repr, keys))) != len(keys) or x in _rebound(n.body) or not self._keyed(list(n.body) + list(rest), x):
+            return n
+        chain = list(n.orelse)
+        for k in reversed(keys):
+            m = {x: ast.Constant(value=k)}
+            test = ast.Compare(left=ast.Name(id=x, ctx=ast.Load()), ops=[ast.Eq()], comparators=[ast.Constant(value=k)])
+            if rest:
+                test = ast.BoolOp(op=ast.And(), values=[test] + [_Subst(dict(m)).visit(copy.deepcopy(c)) for c in rest])
+            body = [_Subst(dict(m)).visit(copy.deepcopy(st)) for st in n.body]
+            node = ast.copy_location(ast.If(test=test, body=body, orelse=chain), n)
+            chain = [ast.fix_missing_locations(node)]
+        return chain[0]
+
+
+def namedtuple_tables(mod: ast.Module) -> dict:
+    """name -> [field names] of the namedtuple types a module defines at its top level or in a class body:
+    `X = namedtuple("X", "a b" | ["a", "b"])` and `class X(NamedTuple): a: T ...`"""
+    out = {}
+
+    def scan(body):
+        for st in body:
+            if isinstance(st, ast.Assign) and len(st.targets) == 1 and isinstance(st.targets[0], ast.Name) and isinstance(st.value, ast.Call) \
+                    and ast.unparse(st.value.func) in ("namedtuple", "collections.namedtuple") and len(st.value.args) >= 2:
+                spec = st.value.args[1]
+                if isinstance(spec, ast.Constant) and isinstance(spec.value, str):
+                    out[st.targets[0].id] = spec.value.replace(",", " ").split()
+                elif isinstance(spec, (ast.List, ast.Tuple)) and all(isinstance(e, ast.Constant) and isinstance(e.value, str) for e in spec.elts):
+                    out[st.targets[0].id] = [e.value for e in spec.elts]
+            elif isinstance(st, ast.ClassDef):
+                if any(ast.unparse(b) in ("NamedTuple", "typing.NamedTuple") for b in st.bases):
+                    out[st.name] = [x.target.id for x in st.body if isinstance(x, ast.AnnAssign) and isinstance(x.target, ast.Name)]
+                else:
+                    scan(st.body)
+    scan(mod.body)
+    return out
+
+
+def namedtuples_as_tuples(func, table: dict):
+    """A local that is only ever bound to instances of ONE namedtuple type of `table` (`rec = T(*fields)`, `T._make(fields)`,
+    `T(a, b, c)`, through self / cls / a module too) is the plain tuple of its fields: the constructor becomes `tuple(fields)` / the
+    tuple literal in field order, and `rec.name` becomes `rec[k]`.  Records are then positions again, whatever they are called."""
+    if not table:
+        return func
+
+    def type_of(call):
+        if not isinstance(call, ast.Call):
+            return None, None
+        f = call.func
+        make = isinstance(f, ast.Attribute) and f.attr == "_make"
+        if make:
+            f = f.value
+        name = f.id if isinstance(f, ast.Name) else f.attr if isinstance(f, ast.Attribute) else None
+        return (name, make) if name in table else (None, None)
+
+    def as_tuple(call):
+        name, make = type_of(call)
+        fields = table[name]
+        if make:
+            if len(call.args) == 1 and not call.keywords:
+                return ast.Call(func=ast.Name(id="tuple", ctx=ast.Load()), args=[call.args[0]], keywords=[])
+            return None
+        if len(call.args) == 1 and isinstance(call.args[0], ast.Starred) and not call.keywords:
+            return ast.Call(func=ast.Name(id="tuple", ctx=ast.Load()), args=[call.args[0].value], keywords=[])
+        if any(isinstance(a, ast.Starred) for a in call.args) or any(k.arg is None for k in call.keywords):
+            return None
+        given = dict(zip(fields, call.args))
+        given.update({k.arg: k.value for k in call.keywords})
+        if len(call.args) > len(fields) or set(given) != set(fields):
+            return None
+        return ast.Tuple(elts=[given[f_] for f_ in fields], ctx=ast.Load())
+    binds = {}
+    for n in ast.walk(func):
+        if isinstance(n, ast.Name) and isinstance(n.ctx, (ast.Store, ast.Del)):
+            binds.setdefault(n.id, []).append(None)
+    for n in ast.walk(func):
+        if isinstance(n, (ast.Assign, ast.AnnAssign)) and n.value is not None:
+            tg = n.targets if isinstance(n, ast.Assign) else [n.target]
+            if len(tg) == 1 and isinstance(tg[0], ast.Name):
+                t, _ = type_of(n.value)
+                if t is not None and as_tuple(n.value) is not None:
+                    lst = binds[tg[0].id]
+                    lst[lst.index(None)] = t
+    params = {a.arg for a in func.args.posonlyargs + func.args.args + func.args.kwonlyargs}
+    recs = {v: ts[0] for v, ts in binds.items() if v not in params and ts and None not in ts and len(set(ts)) == 1}
+    if not recs:
+        return func
+
+    class T(ast.NodeTransformer):
+        def visit_Attribute(self, n):
+            self.generic_visit(n)
+            if isinstance(n.ctx, ast.Load) and isinstance(n.value, ast.Name) and n.value.id in recs and n.attr in table[recs[n.value.id]]:
+                return ast.copy_location(ast.Subscript(value=n.value, slice=ast.Constant(value=table[recs[n.value.id]].index(n.attr)), ctx=ast.Load()), n)
+            return n
+
+        def visit_Assign(self, n):
+            self.generic_visit(n)
+            if len(n.targets) == 1 and isinstance(n.targets[0], ast.Name) and n.targets[0].id in recs:
+                n.value = ast.copy_location(as_tuple(n.value), n.value)
+            return n
+    func.body = [T().visit(st) for st in func.body]
+    return ast.fix_missing_locations(func)
+
+
+def fold_static(func, namedtuples: dict | None = None):
+    """partial evaluation of the literal part of `func` (in place; see the section comment).  Idempotent; a construct it cannot fold
+    safely is left as written.  `namedtuples`: namedtuple_tables of the module (records become plain tuples first)."""
+    try:
+        if namedtuples:
+            namedtuples_as_tuples(func, namedtuples)
+        for _ in range(4):
+            before = ast.dump(func)
+            func.body = [_Fold().visit(st) for st in func.body]
+            func.body = _prune_const_ifs(func.body) or [ast.Pass()]
+            func.body = _unroll_block(func.body, {}, static=True)
+            func.body = [_TableDispatch().visit(st) for st in func.body]
+            func.body = [_Fold().visit(st) for st in func.body]
+            func.body = _prune_const_ifs(func.body) or [ast.Pass()]
+            _drop_dead_tables(func)
+            inline_local_defs(func)
+            ast.fix_missing_locations(func)
+            if ast.dump(func) == before:
+                break
     except RecursionError:
         pass
     return func
